@@ -921,3 +921,220 @@ Proof.
   unfold input_of_bytes. destruct (parse_command b) eqn:E; try reflexivity.
   cbn. eapply parse_command_wf. exact E.
 Qed.
+
+(* ================= 6. refinement of worlds, for any two related store machines *)
+Section GenericRefinement.
+Variable sasl : bytes -> option bytes -> list bytes -> auth_outcome.
+Variables (S1 S2 : Type).
+Variable run1 : S1 -> cmd -> resp * S1.
+Variable run2 : S2 -> cmd -> resp * S2.
+Variables (init1 : S1) (init2 : S2).
+Variable R : S1 -> S2 -> Prop.
+Hypothesis R_step : forall s1 s2 c, R s1 s2 -> cmd_wf c = true ->
+  resp_equiv (fst (run1 s1 c)) (fst (run2 s2 c)) /\ R (snd (run1 s1 c)) (snd (run2 s2 c)).
+
+Definition gstores_rel (st1 : stores S1) (st2 : stores S2) : Prop :=
+  forall u, R (get_store S1 init1 st1 u) (get_store S2 init2 st2 u).
+
+Notation step1 := (conn_step sasl S1 run1 init1).
+Notation step2 := (conn_step sasl S2 run2 init2).
+
+Lemma gstores_rel_set st1 st2 u s1 s2 :
+  gstores_rel st1 st2 -> R s1 s2 ->
+  gstores_rel (set_store S1 st1 u s1) (set_store S2 st2 u s2).
+Proof.
+  intros H HR u2. destruct (bytes_eq_dec u u2) as [<-|N].
+  - rewrite !get_set_same. exact HR.
+  - rewrite !get_set_other by exact N. apply H.
+Qed.
+
+Lemma gconn_step_refines st1 st2 c i :
+  gstores_rel st1 st2 -> input_wf i = true ->
+  resp_equiv (fst (fst (step1 st1 c i))) (fst (fst (step2 st2 c i)))
+  /\ gstores_rel (snd (fst (step1 st1 c i))) (snd (fst (step2 st2 c i)))
+  /\ snd (step1 st1 c i) = snd (step2 st2 c i).
+Proof.
+  intros H W. destruct i as [k conts|].
+  2:{ cbn. split; [apply resp_equiv_refl|split; [exact H|reflexivity]]. }
+  cbn [input_wf] in W.
+  destruct (c_auth c) as [u|] eqn:A.
+  - destruct (store_cmd k) eqn:K.
+    + rewrite (auth_step sasl S1 run1 init1 st1 c u k conts A K).
+      rewrite (auth_step sasl S2 run2 init2 st2 c u k conts A K). cbn [fst snd].
+      destruct (R_step _ _ k (H u) W) as [R1 R2].
+      split; [exact R1|split; [|reflexivity]].
+      apply gstores_rel_set; assumption.
+    + destruct k; cbn in K; try discriminate; cbn [conn_step]; rewrite ?A; cbn [fst snd];
+        (split; [apply resp_equiv_refl|split; [exact H|reflexivity]]).
+  - destruct k; cbn [conn_step]; rewrite ?A; cbn [fst snd];
+      try (split; [apply resp_equiv_refl|split; [exact H|reflexivity]]).
+    + destruct (c_offer_tls c); cbn [fst snd];
+        (split; [apply resp_equiv_refl|split; [exact H|reflexivity]]).
+    + destruct (mechs_available c); [destruct (sasl mech initial conts)|]; cbn [fst snd];
+        (split; [apply resp_equiv_refl|split; [exact H|reflexivity]]).
+Qed.
+
+Theorem gworld_refines evs : forall st1 st2 cs,
+  gstores_rel st1 st2 -> Forall (fun ev => input_wf (snd ev) = true) evs ->
+  Forall2 out_equiv (fst (run sasl S1 run1 init1 (mk_world S1 st1 cs) evs))
+                    (fst (run sasl S2 run2 init2 (mk_world S2 st2 cs) evs))
+  /\ gstores_rel (w_stores S1 (snd (run sasl S1 run1 init1 (mk_world S1 st1 cs) evs)))
+                 (w_stores S2 (snd (run sasl S2 run2 init2 (mk_world S2 st2 cs) evs)))
+  /\ w_conns S1 (snd (run sasl S1 run1 init1 (mk_world S1 st1 cs) evs))
+     = w_conns S2 (snd (run sasl S2 run2 init2 (mk_world S2 st2 cs) evs)).
+Proof.
+  induction evs as [|[k i] r IH]; intros st1 st2 cs H F; cbn [run].
+  - cbn. split; [constructor|split; [exact H|reflexivity]].
+  - inversion F as [|? ? W F2]; subst. cbn [snd] in W.
+    unfold step. cbn [w_conns w_stores].
+    destruct (nth_error cs k) as [c|].
+    2:{ specialize (IH st1 st2 cs H F2).
+        destruct (run sasl S1 run1 init1 _ r) as [o1 w1].
+        destruct (run sasl S2 run2 init2 _ r) as [o2 w2]. cbn [fst snd] in *.
+        destruct IH as (I1 & I2 & I3). split; [constructor; [exact I|exact I1]|split; assumption]. }
+    destruct (c_closed c).
+    { specialize (IH st1 st2 cs H F2).
+      destruct (run sasl S1 run1 init1 _ r) as [o1 w1].
+      destruct (run sasl S2 run2 init2 _ r) as [o2 w2]. cbn [fst snd] in *.
+      destruct IH as (I1 & I2 & I3). split; [constructor; [exact I|exact I1]|split; assumption]. }
+    destruct (gconn_step_refines st1 st2 c i H W) as (R1 & R2 & R3).
+    destruct (step1 st1 c i) as [[r1 st1'] c1]. destruct (step2 st2 c i) as [[r2 st2'] c2].
+    cbn [fst snd] in *. subst c2.
+    specialize (IH st1' st2' (set_nth cs k c1) R2 F2).
+    destruct (run sasl S1 run1 init1 _ r) as [o1 w1].
+    destruct (run sasl S2 run2 init2 _ r) as [o2 w2]. cbn [fst snd] in *.
+    destruct IH as (I1 & I2 & I3). split; [constructor; [exact R1|exact I1]|split; assumption].
+Qed.
+
+End GenericRefinement.
+
+(* ============================== 7. the maildir backend's one-script store *)
+(* abstraction: the file's content is the binding of "active", which is then
+   also the active name; no other name is bound *)
+Definition m_refines (s : mstate) (sp : sspec) : Prop :=
+  NoDup (dict_keys (fst sp))
+  /\ (forall k, dict_get (fst sp) k = if bytes_eqb k kw_active then s else None)
+  /\ snd sp = match s with Some _ => Some kw_active | None => None end.
+
+Lemma m_refines_init : m_refines m_init spec_init.
+Proof.
+  repeat split; cbn; [constructor|]. intro k. destruct (bytes_eqb k kw_active); reflexivity.
+Qed.
+
+Section Maildir.
+Variable cfg : config.
+Variable compiles : bytes -> bool.
+Notation mrun := (mstate_run cfg compiles).
+Notation s1run := (spec1_run cfg compiles).
+
+Lemma m_same s sp r : m_refines s sp -> resp_equiv r r /\ m_refines s sp.
+Proof. intro H. split; [apply resp_equiv_refl|exact H]. Qed.
+
+Theorem mstore_refines s sp c :
+  m_refines s sp -> cmd_wf c = true ->
+  resp_equiv (fst (mrun s c)) (fst (s1run sp c))
+  /\ m_refines (snd (mrun s c)) (snd (s1run sp c)).
+Proof.
+  intros RS _. pose proof RS as (ND & GET & ACT). destruct sp as [m a]. cbn [fst snd] in *.
+  destruct c; cbn [mstate_run spec1_run spec_run]; try (apply m_same; exact RS).
+  - (* HAVESPACE *) destruct (fits cfg size); apply m_same; exact RS.
+  - (* PUTSCRIPT *)
+    destruct (fits cfg _); [|apply m_same; exact RS].
+    destruct (bytes_eqb name kw_active) eqn:E; [|apply m_same; exact RS].
+    apply bytes_eqb_eq in E. subst name. cbn [fst snd].
+    split; [apply resp_equiv_refl|]. repeat split; cbn [fst snd].
+    + cbn [dict_keys map fst]. constructor.
+      * intro H. apply keys_remove_incl in H. destruct H as [_ H]. apply H. reflexivity.
+      * apply nodup_remove. exact ND.
+    + intro k. cbn [dict_get]. rewrite (bytes_eqb_sym kw_active k).
+      destruct (bytes_eqb k kw_active) eqn:E; [reflexivity|].
+      apply bytes_eqb_false in E. rewrite get_remove_other by (intro X; apply E; symmetry; exact X).
+      rewrite GET. rewrite (bytes_eqb_neq _ _ E). reflexivity.
+  - (* LISTSCRIPTS *)
+    cbn [fst snd]. split; [|exact RS]. repeat split. cbn [r_payload].
+    assert (K : Permutation (dict_keys m)
+                  (match s with Some _ => [kw_active] | None => [] end)).
+    { apply NoDup_Permutation; [exact ND| |].
+      - destruct s; repeat constructor; cbn; tauto.
+      - intro x. rewrite <- dict_in_iff. unfold dict_in. rewrite GET.
+        destruct (bytes_eqb x kw_active) eqn:E.
+        + apply bytes_eqb_eq in E. subst x. destruct s; cbn; intuition discriminate.
+        + apply bytes_eqb_false in E. destruct s; cbn; intuition; try discriminate. }
+    replace (map (fun p : key * bytes => (fst p, optkey_eqb (Some (fst p)) a)) m)
+      with (map (fun n => (n, optkey_eqb (Some n) a)) (dict_keys m))
+      by (unfold dict_keys; rewrite map_map; reflexivity).
+    apply Permutation_sym. eapply Permutation_trans; [apply Permutation_map; exact K|].
+    rewrite ACT. destruct s; [|reflexivity]. cbn [map]. unfold optkey_eqb, option_eqb.
+    rewrite bytes_eqb_refl. reflexivity.
+  - (* SETACTIVE *)
+    destruct name as [n|]; [|apply m_same; exact RS].
+    destruct (bytes_eqb n kw_active); apply m_same; exact RS.
+  - (* GETSCRIPT *)
+    rewrite GET. destruct (bytes_eqb name kw_active); [destruct s|]; apply m_same; exact RS.
+  - (* DELETESCRIPT *)
+    destruct (bytes_eqb name kw_active) eqn:E; [|apply m_same; exact RS].
+    apply bytes_eqb_eq in E. subst name. cbn [fst snd].
+    split; [apply resp_equiv_refl|]. repeat split; cbn [fst snd].
+    + apply nodup_remove. exact ND.
+    + intro k. destruct (bytes_eqb k kw_active) eqn:E.
+      * apply bytes_eqb_eq in E. subst k. apply get_remove_same.
+      * apply bytes_eqb_false in E.
+        rewrite get_remove_other by (intro X; apply E; symmetry; exact X).
+        rewrite GET. rewrite (bytes_eqb_neq _ _ E). reflexivity.
+  - (* CHECKSCRIPT *) destruct (compiles data); apply m_same; exact RS.
+Qed.
+
+(* PUTSCRIPT "active" then GETSCRIPT "active" returns the same bytes — for
+   every script, the empty one included: an empty script is a script *)
+Lemma m_put_then_get s v :
+  fits cfg (N.of_nat (length v)) = true ->
+  mrun s (CPutScript kw_active v) = (r_ok, Some v)
+  /\ mrun (Some v) (CGetScript kw_active) = (mk_resp OK RcNone TxNone (PScript v), Some v)
+  /\ mrun (Some v) CListScripts
+     = (mk_resp OK RcNone TxNone (PList [(kw_active, true)]), Some v).
+Proof. intro F. cbn [mstate_run]. rewrite F. repeat split. Qed.
+
+(* what is not stored is not acknowledged: PUTSCRIPT under any other name is refused *)
+Lemma m_put_other_refused s n v :
+  n <> kw_active -> r_cond (fst (mrun s (CPutScript n v))) = NO /\ snd (mrun s (CPutScript n v)) = s.
+Proof.
+  intro N. cbn [mstate_run]. destruct (fits cfg _); [|split; reflexivity].
+  rewrite (bytes_eqb_neq _ _ N). split; reflexivity.
+Qed.
+
+(* errors change nothing *)
+Lemma mstate_run_error_same s c :
+  r_cond (fst (mrun s c)) <> OK -> snd (mrun s c) = s.
+Proof.
+  destruct c; cbn [mstate_run]; intro N;
+    repeat match goal with
+    | |- context [if ?x then _ else _] => destruct x
+    | |- context [match ?x with Some _ => _ | None => _ end] => destruct x
+    end; cbn in *; try reflexivity; exfalso; apply N; reflexivity.
+Qed.
+
+(* REFUTED clause on this backend: the one script is the active one (LISTSCRIPTS
+   marks it) and DELETESCRIPT deletes it *)
+Lemma m_delete_active_refuted :
+  exists s, r_payload (fst (mrun s CListScripts)) = PList [(kw_active, true)]
+    /\ mrun s (CDeleteScript kw_active) = (r_ok, None).
+Proof. exists (Some [107;101;101;112;59]%N). repeat split. Qed.
+
+End Maildir.
+
+Definition mstores_rel (st : stores mstate) (sp : stores sspec) : Prop :=
+  gstores_rel mstate sspec m_init spec_init m_refines st sp.
+
+Theorem mworld_refines cfg compiles sasl evs : forall st sp cs,
+  mstores_rel st sp -> Forall (fun ev => input_wf (snd ev) = true) evs ->
+  Forall2 out_equiv
+    (fst (run sasl mstate (mstate_run cfg compiles) m_init (mk_world mstate st cs) evs))
+    (fst (run sasl sspec (spec1_run cfg compiles) spec_init (mk_world sspec sp cs) evs))
+  /\ mstores_rel
+       (w_stores mstate (snd (run sasl mstate (mstate_run cfg compiles) m_init (mk_world mstate st cs) evs)))
+       (w_stores sspec (snd (run sasl sspec (spec1_run cfg compiles) spec_init (mk_world sspec sp cs) evs)))
+  /\ w_conns mstate (snd (run sasl mstate (mstate_run cfg compiles) m_init (mk_world mstate st cs) evs))
+     = w_conns sspec (snd (run sasl sspec (spec1_run cfg compiles) spec_init (mk_world sspec sp cs) evs)).
+Proof.
+  intros st sp cs. apply gworld_refines. intros s1 s2 c. apply mstore_refines.
+Qed.
